@@ -3,7 +3,7 @@ from fractions import Fraction as F
 
 from harness import core, fr
 from harness.props import alloc_common as ac
-from harness.props.alloc_common import HEADER, run_impl, to_coq, shrink
+from harness.props.alloc_common import HEADER, HEADER_H, run_impl, to_coq, shrink
 
 ASSUMPTIONS = [
     "tolerances set explicitly (Rectangle.set_epsilon) and passed to the model as parameters; the sliver ratio is the exact value of the float 0.01",
@@ -48,7 +48,82 @@ def oracle_decimal(case, obs):
     return None
 
 
+def step_clauses(name, before, after, areas_impl):
+    """The clauses of C02 for ONE refinement call: `before` = the cells (with the flags they had when the call was
+    made), `after` = the cells of the allocation it returned, `areas_impl` = {module: area()} of the returned object."""
+    used = [0] * len(after)
+    ab = [ac.cbox(c) for c in after]
+    for p in before:
+        pb = ac.cbox(p)
+        kids = [(i, c) for i, c in enumerate(after)
+                if ab[i][0] < pb[2] and pb[0] < ab[i][2] and ab[i][1] < pb[3] and pb[1] < ab[i][3]]     # overlap > 0
+        for i, c in kids:
+            used[i] += 1
+            b = ab[i]
+            if not (b[0] >= pb[0] and b[1] >= pb[1] and b[2] <= pb[2] and b[3] <= pb[3]):
+                return f"{name}: a new cell is not inside the cell it was cut from"
+            if dict(map(tuple, c["alloc"])) != dict(map(tuple, p["alloc"])):
+                return f"{name}: a new cell does not inherit the occupancy ratios of its parent"
+            if c["rect"]["fixed"] != p["rect"]["fixed"] or c["rect"]["region"] != p["rect"]["region"]:
+                return f"{name}: a new cell lost the attributes of its parent"
+        if sum(ac.carea(c) for _, c in kids) != ac.carea(p):
+            return f"{name}: the new cells do not cover the cell they were cut from"
+        for x in range(len(kids)):
+            for y in range(x + 1, len(kids)):
+                if ac.ovl(ab[kids[x][0]], ab[kids[y][0]]) > 0:
+                    return f"{name}: new cells overlap"
+        if p["rect"]["fixed"] and (len(kids) != 1 or ab[kids[0][0]] != pb):
+            return f"{name}: a cell of a fixed module was cut"
+    if any(u != 1 for u in used):
+        return f"{name}: a new cell does not belong to exactly one original cell"
+    mods = {m for c in before for m, _ in c["alloc"]}
+    for m in mods:
+        if ac.mod_area(before, m) != ac.mod_area(after, m):
+            return f"{name}: allocated area of module {m} changed"
+        if ac.mod_center(before, m) != ac.mod_center(after, m):
+            return f"{name}: centre of mass of module {m} changed"
+        a_impl = areas_impl.get(m)
+        if a_impl is None or core.frac(a_impl) != ac.mod_area(after, m):
+            return f"{name}: Allocation.area({m}) disagrees with the cells"
+    return None
+
+
+def oracle_hist(case, obs):
+    """History cases: the same clauses after every refinement call, judged on the cells and the fixed flags the
+    allocation had WHEN the call was made (whatever was asked of the object, or flagged in place, before)."""
+    if obs["init"] is None:
+        return None
+    for n, (h, st) in enumerate(zip(case["hops"], obs["steps"])):
+        where = f"step {n}"
+        if h[0] == "apply":
+            o = h[2]
+            if st["new"] is None:
+                if o[0] == "refine" and o[2] == 0:
+                    continue
+                return f"{o[0]} failed ({st.get('err')}) on a valid allocation ({where} of a history)"
+            if not st["others_unchanged"]:
+                return f"{o[0]} modified an allocation it was applied to or an earlier one ({where})"
+            why = step_clauses(o[0], st["src"], st["new"], {m: a for m, a, _ in st["new_areas"]})
+            if why:
+                return f"{why} ({where} of a history on shared objects)"
+        elif h[0] == "areas":
+            # area()/center() of an allocation stay those of its cells, whatever happened to the object since
+            cells = st["src"]
+            size = max([abs(core.frac(c["rect"]["cx"])) + abs(core.frac(c["rect"]["cy"])) + core.frac(c["rect"]["w"]) +
+                        core.frac(c["rect"]["h"]) for c in cells] + [1])
+            for m, a, c in st["val"]:
+                if core.frac(a) != ac.mod_area(cells, m):
+                    return f"areas: Allocation.area({m}) disagrees with the cells ({where})"
+                ce = ac.mod_center(cells, m)
+                if ce is None or abs(core.frac(c[0]) - ce[0]) > size * F(1, 10 ** 9) or \
+                        abs(core.frac(c[1]) - ce[1]) > size * F(1, 10 ** 9):
+                    return f"areas: Allocation.center({m}) disagrees with the cells ({where})"
+    return None
+
+
 def oracle(case, obs):
+    if ac.is_hist(case):
+        return oracle_hist(case, obs)
     if case.get("stream") == "decimal":
         return oracle_decimal(case, obs)
     if obs["init"] is None:
@@ -61,62 +136,63 @@ def oracle(case, obs):
             return f"{o[0]} failed ({st.get('err')}) on a valid allocation"
         if not st.get("src_unchanged", True):
             return f"{o[0]} modified the allocation it was applied to"
-        after = after["cells"]
-        # tiling per original cell
-        used = [0] * len(after)
-        for p in before:
-            pb = ac.cbox(p)
-            kids = [(i, c) for i, c in enumerate(after) if ac.ovl(pb, ac.cbox(c)) > 0]
-            for i, c in kids:
-                used[i] += 1
-                b = ac.cbox(c)
-                if not (b[0] >= pb[0] and b[1] >= pb[1] and b[2] <= pb[2] and b[3] <= pb[3]):
-                    return f"{o[0]}: a new cell is not inside the cell it was cut from"
-                if dict(map(tuple, c["alloc"])) != dict(map(tuple, p["alloc"])):
-                    return f"{o[0]}: a new cell does not inherit the occupancy ratios of its parent"
-                if c["rect"]["fixed"] != p["rect"]["fixed"] or c["rect"]["region"] != p["rect"]["region"]:
-                    return f"{o[0]}: a new cell lost the attributes of its parent"
-            if sum(ac.carea(c) for _, c in kids) != ac.carea(p):
-                return f"{o[0]}: the new cells do not cover the cell they were cut from"
-            for x in range(len(kids)):
-                for y in range(x + 1, len(kids)):
-                    if ac.ovl(ac.cbox(kids[x][1]), ac.cbox(kids[y][1])) > 0:
-                        return f"{o[0]}: new cells overlap"
-            if p["rect"]["fixed"] and (len(kids) != 1 or ac.cbox(kids[0][1]) != pb):
-                return f"{o[0]}: a cell of a fixed module was cut"
-        if any(u != 1 for u in used):
-            return f"{o[0]}: a new cell does not belong to exactly one original cell"
-        mods = {m for c in before for m, _ in c["alloc"]}
-        for m in mods:
-            if ac.mod_area(before, m) != ac.mod_area(after, m):
-                return f"{o[0]}: allocated area of module {m} changed"
-            if ac.mod_center(before, m) != ac.mod_center(after, m):
-                return f"{o[0]}: centre of mass of module {m} changed"
-            a_impl = st["after"]["areas"].get(m)
-            if a_impl is None or core.frac(a_impl) != ac.mod_area(after, m):
-                return f"{o[0]}: Allocation.area({m}) disagrees with the cells"
+        why = step_clauses(o[0], before, after["cells"], st["after"]["areas"])
+        if why:
+            return why
     return None
 
 
 def failure_key(case, why):
     w = why or ""
+    h = "history-" if ac.is_hist(case) else ""
     if "griddify failed" in w:
-        return "C02/griddify-fails"
+        return f"C02/{h}griddify-fails"
     if "fixed module was cut" in w:
-        return "C02/fixed-cell-cut"
-    return "C02/refine"
+        return f"C02/{h}fixed-cell-cut"
+    return f"C02/{h}refine"
+
+
+def gen_cases(rng, n, quick):
+    """n cases: chains of operations on fresh objects (the original stream) and histories on shared objects."""
+    from harness.props import alloc_variants as av
+    n_hist = (n * 9) // 20
+    n_tmpl = min(n_hist // 3, 3 * len(ac.QKINDS) * len(ac.TKINDS))
+    n_big = 8 if quick else 60
+    n_sliver = 16 if quick else 160
+    cases = [av.vary(rng, ac.gen_hist_template(rng, i)) for i in range(n_tmpl)]
+    cases += [av.vary(rng, av.gen_big(rng, quick)) for _ in range(n_big)]
+    cases += [av.vary(rng, av.gen_sliver2(rng)) for _ in range(n_sliver)]
+    cases += [av.vary(rng, ac.gen_hist_case(rng)) for _ in range(n_hist - n_tmpl - n_big - n_sliver)]
+    chains = [ac.gen_case(rng) for _ in range(n - n_hist)]
+    # interleave (chain cases print larger terms): the shards evaluated in parallel get similar loads
+    out = []
+    step = max(len(chains) / max(len(cases), 1), 0.0)
+    taken = 0
+    for i, c in enumerate(cases):
+        out.append(c)
+        upto = int(round((i + 1) * step))
+        out += chains[taken:upto]
+        taken = upto
+    return out + chains[taken:]
 
 
 def run(ctx, out, replay=None):
-    n = 700 if ctx.quick() else 7000
+    n = 520 if ctx.quick() else 5000
     out.rule = ("allocations from random dyadic guillotine partitions (also sparse, grid, sliver layouts), occupancy maps "
-                "empty/single/multi/full/fixed, depths 0-3, then 1-4 random refinement operations (refine with thresholds "
-                "equal to occurring ratios, uniform depth, griddify); non-trivial = at least two cells; distinct by hash")
+                "empty/single/multi/full/fixed, depths 0-3. (a) chains: 1-4 random refinement operations, each applied to the "
+                "result of the previous one (refine with thresholds equal to occurring ratios, uniform depth, griddify); "
+                "(b) histories on shared objects: up to 12 calls (refine / uniform / griddify / copy / must_be_refined / "
+                "max_refinement_depth / num_rectangles / area+center) on ANY allocation built so far, interleaved with "
+                "rect.fixed = b set in place on a cell (also through a derived allocation sharing the Rectangle object), the "
+                "same object called again with other arguments; a systematic block enumerates first-call x later-call "
+                "kinds with the flag set in between on a cell the later call would cut; non-trivial = at least two cells; "
+                "distinct by hash")
     cases = []
     if replay and "case" in replay:
         cases.append(fr.unjson(replay["case"]))
     cases += fr.load_corpus("C02")
-    while len(cases) < n:
-        cases.append(ac.gen_case(ctx.rng))
-    fr.run_cases(ctx, out, cases, run_impl, to_coq, oracle, failure_key, HEADER,
-                 dist_key=ac.dist_key, nontrivial=ac.nontrivial, shard=150, shrink=shrink)
+    cases += gen_cases(ctx.rng, max(n - len(cases), 0), ctx.quick())
+    fr.run_cases(ctx, out, cases, ac.run_any, ac.any_to_coq, oracle, failure_key, HEADER_H,
+                 dist_key=ac.any_dist_key, nontrivial=ac.nontrivial, shard=75, shrink=ac.any_shrink)
+    out.extra["history_cases"] = sum(1 for c in cases if ac.is_hist(c))
+    out.extra["variants"] = ac.variant_counts(cases)
